@@ -611,6 +611,11 @@ int BaseKillPlugin::tryToKillPids(const std::vector<int>& pids) {
   int nrKilled = 0;
 
   for (int pid : pids) {
+    // cgroup.procs lists 0 for a process that lives in another pid namespace;
+    // kill(2) with pid <= 0 would signal whole process groups, oomd's included
+    if (pid <= 0) {
+      continue;
+    }
     auto commPath = std::string("/proc/") + std::to_string(pid) + "/comm";
     auto comm = Fs::readFileByLine(commPath);
 
